@@ -34,6 +34,7 @@ type C10Case struct {
 	Flag     bool      `json:"flag"`
 	Seed     int64     `json:"seed"`
 	Counts   []int     `json:"counts,omitempty"`
+	Sched    bool      `json:"sched,omitempty"` // replay runs: the second and third execution run under two seeded goroutine schedules (an operation may start goroutines of its own)
 	MapSeeds [2]uint64 `json:"map_seeds"`
 	Clocks   [2]int64  `json:"clocks"`
 }
@@ -76,6 +77,7 @@ func (c10) Gen(rs uint64, tier string, race bool) interface{} {
 	c.Clocks[1] = c.Clocks[0] + 3601e9
 	c.A, c.B = dyadic[r.Intn(5)], dyadic[r.Intn(5)]
 	c.Flag = r.Bool()
+	c.Sched = r.Chance(0.1)
 	cli := r.Chance(0.08)
 	if !cli && r.Chance(0.25) {
 		c.Kind = "support"
@@ -667,10 +669,24 @@ func (c10) Run(ctx *Ctx, ci interface{}) (o Outcome) {
 		verifrt.SetMapSeed(c.MapSeeds[0], true)
 		verifrt.SetClock(c.Clocks[0], true)
 		r1 := c.apply(c.Seed)
-		r2 := c.apply(c.Seed)
+		sched := func(seed uint64, policy int) (res opResult) {
+			if !c.Sched {
+				return c.apply(c.Seed)
+			}
+			sr := RunSched(ctx.T, SchedCfg{Seed: seed, Policy: policy, MaxSteps: 200000}, func() { res = c.apply(c.Seed) })
+			o.Add("sched_steps", int64(sr.Steps))
+			for _, p := range sr.Panics {
+				panic(fmt.Sprintf("%s\n%s", p.Panic, p.Stack))
+			}
+			if sr.Deadlock || sr.Budget || !sr.RootDone {
+				res.err = fmt.Sprintf("the operation never finished under the scheduler (deadlock=%v, %d steps)", sr.Deadlock, sr.Steps)
+			}
+			return
+		}
+		r2 := sched(c.MapSeeds[0], PolUniform)
 		verifrt.SetMapSeed(c.MapSeeds[1], true)
 		verifrt.SetClock(c.Clocks[1], true)
-		r3 := c.apply(c.Seed)
+		r3 := sched(c.MapSeeds[1], PolStarve)
 		o.Add("clock_reads", int64(verifrt.ClockReads()))
 		if r1.key() != r2.key() {
 			fail("replay-differs", "the same seed gives two results in two consecutive executions:\n%s\n%s", r1.key(), r2.key())
